@@ -227,7 +227,7 @@ ADDENDA = {
     "C02": "Also decides: (R02.f) closed-world complement only under an identity test; (R02.g) match guards always contribute their constraint; (R02.h) operator mirrored when the narrowed operand is on the right; (R02.i) origin-subset test before applying a constraint; (R02.j) the isinstance() predicate is a runtime-class test - its negative arm does not drop on assignability alone and its promoted-type table equals TypeObject's artificial bases; by model extraction (R02.k/l): IsAssignablePredicate, EqualsPredicate, InPredicate and the is_instance / is_value / is_truthy / one_of / all_of arms of Constraint.apply_to_value are interpreted from their AST over a universe of 12 runtime objects and 7 classes for both polarities - no object that takes the branch is lost, nothing outside the value and the tested one appears. Round 4: (R02.m) the sequence-pattern model of C01 R01.j; (R02.n) extract_constraints with AndConstraint.make / OrConstraint.make interpreted on 186 values, read as propositional formulas: the extracted constraint is implied by the condition (a null disjunct is never dropped). The narrowing oracle applies the numeric promotion to classes (type[float] stands for int as well) and reads the predicate flags of isinstance / issubclass from their impl functions.",
     "C03": "Also decides: (R03.d) accepting shortcuts before the union member loop need an exact justification; by model extraction (R03.e): the can_assign methods of Value / KnownValue / TypedValue / MultiValuedValue / AnyValue and TypeObject are interpreted from their AST with real runtime objects and classes as payloads - each of 12 objects is accepted by each of 30 types exactly when it is a member (isinstance with numeric promotion, type-strict literals), incl. the large-union fast path; (R03.f) GenericValue / SequenceValue / TypedDictValue.can_assign, replace_known_sequence_value and get_generic_args_for_type interpreted on 38 real container objects x 123 container types (incl. tuples with one unpacked member) and 21 dict objects x 180 TypedDicts: accepted exactly when a structural member; (R03.g) 48 written annotation forms, read by the three interpreted annotation routes, denote the container-model type the typing documentation gives them.",
     "C04": "Also decides: (R04.g) exact early accepts in MultiValuedValue.can_assign; (R04.h) SequenceValue acceptances are dominated by the length comparison; (R04.i) direction of the metatype test; by model extraction (R04.j): on every ordered pair of 36 static types acceptance implies inclusion of member sets, reflexivity, Never/Any laws, union-right = forall, union-left = exists, exclude-any monotone; (R04.k) the same for every pair of 111 container types and of 180 TypedDicts (the fixed-tuple-accepts-variadic-tuple leniency is counted, not reported); (R04.l) accept-by-identity shortcuts on compare=False fields also compare the value-holding fields. Round 4: (R04.m) _extract_protocol_members interpreted on the MRO of 18 protocol classes built by CPython: every member of __protocol_attrs__ is a protocol member.",
-    "C05": "Also decides, by model extraction: (R05.f/g) the body of bind_arguments is interpreted from its AST over an abstract store (opaque values, concrete control skeleton) for every def-legal signature of up to 4 (quick) / 6 (thorough) parameters and every call shape of up to 4 positionals and 4 keywords with and without *args/**kwargs of unknown length (158,620 / 2,883,300 abstract calls); accepted <=> CPython binds on the definite slice, and the exists-expansion clause on the star slice, against a reference binder that the thorough tier validates against the interpreter's own binding; (R05.h) preprocess_args + bind_arguments interpreted on calls with *tuple / **dict literals and compared with CPython evaluating the same call of the same def: diagnosed iff CPython raises TypeError at bind time. Round 4: the generic branch of _preprocess_kwargs_no_mvv (get_tv_map, TypedValue(str).can_assign) is part of the R05.h model.",
+    "C05": "Also decides, by model extraction: (R05.f/g) the body of bind_arguments is interpreted from its AST over an abstract store (opaque values, concrete control skeleton) for every def-legal signature of up to 4 (quick) / 6 (thorough) parameters and every call shape of up to 4 positionals and 4 keywords with and without *args/**kwargs of unknown length (158,620 / 2,883,300 abstract calls); accepted <=> CPython binds on the definite slice, and the exists-expansion clause on the star slice, against a reference binder that the thorough tier validates against the interpreter's own binding; (R05.h) preprocess_args + bind_arguments interpreted on calls with *tuple / **dict literals and compared with CPython evaluating the same call of the same def: diagnosed iff CPython raises TypeError at bind time. Round 4: the generic branch of _preprocess_kwargs_no_mvv (get_tv_map, TypedValue(str).can_assign) is part of the R05.h model. Round 5: R05.h also runs calls with one *xs of unknown length (xs: list[int]) before, between or after up to 3 positionals: accepted only if some length 0..4 binds under CPython, rejected only if no length 1..4 binds.",
     "C06": "Also decides: (R06.c) every collected bounds map reaches the solver through one unified list; (R06.d) the own-default exemption is an identity test; by model extraction (R06.e): the whole call-checking stack from check_call_preprocessed down to the can_assign methods and TypeObject is interpreted from its AST for non-generic signatures of 1-2 parameters with nominal annotations and literal arguments (60,000 / 390,000 calls): diagnosed <=> the call does not bind or an argument is outside its parameter's declared type; (R06.f) the same stack plus TypeVarValue.can_assign, unify_bounds_maps, resolve_bounds_map and solve for generic functions (free, constrained and bounded type variables): diagnosed <=> an argument is outside its declared type or no type fits a type variable; (R06.g) typed *args / **kwargs: the collected tuple / TypedDict is checked against tuple[T, ...] / dict[str, T] through the interpreted container assignability, incl. keywords named like positional-only parameters. Round 4: (R06.h) _get_attribute_from_mro interpreted on eight real classes of a generic hierarchy: the provider of an inherited attribute is the class of the MRO that defines it.",
     "C07": "Also decides: (R07.e) actual parameters are marked consumed only when paired with a named expected parameter; by model extraction (R07.f/g): Signature.can_assign is interpreted from its AST for every pair of def-legal signatures (expected <= 3/4 parameters, actual <= 3 under every naming from a pool of 4; 334,952 / 959,896 pairs) - every accepted pair must let each call shape (<= 3 positionals, <= 3 keywords) that binds to the expected signature bind to the actual one, and every argument flow of a commonly bound shape must have had its annotation pair compared. Round 4: (R07.h) _check_for_incompatible_overrides / _get_base_class_attributes interpreted on 39 class hierarchies: incompatible_override is reported for exactly the bases that define the name and are incompatible.",
     "C08": "By model extraction: (R08.f) OverloadedSignature.check_call and _unite_rets are interpreted from their AST with overloads as model objects following the documented single-overload contract, for every set of 2-3 (thorough 4) overloads x every argument (atom, union, Any): plain arguments are typed by the first accepting overload and diagnosed iff none accepts; unions are accepted iff every member is, with each member's own result in the type; Any never selects one overload's type when several match. Also decides: (R08.e) union decomposition for positional and keyword arguments alike. Round 4: (R08.g) can_assign of the container model given Any on the right for 148 parameter types: an acceptance of Any by a non-Any type has called record_any_used(); in the exclude-Any mode nothing accepts Any. (R08.h) the is_overload gate of check_call_with_bound_args admits exactly the positions (int, str) whose remainder the function can write back.",
